@@ -3,6 +3,7 @@
 seeds=$1; shift
 props=${@:-$(python3 -c "import json;print(' '.join(c['property_id'] for c in json.load(open('/verif/MANIFEST.json'))['checks']))")}
 cd /verif
+export VERIF_EVIDENCE_DIR=/verif/.build/seed-evidence
 for s in $seeds; do for p in $props; do
   out=$(VERIF_SEED=$s ./check $p --tier quick 2>/dev/null); rc=$?
   if [ $rc -ne 0 ]; then echo "seed=$s $p rc=$rc"; echo "$out" | grep -E "^(VIOLATION|INCONCLUSIVE|  signature|  detail)" | cut -c1-600 | head -8; fi
